@@ -256,7 +256,9 @@ def apply_param_filter(el, prop):
 
     for subel in el:
         if subel.tag == "{urn:ietf:params:xml:ns:carddav}text-match":
-            if not apply_text_match(subel, value):
+            # vobject keeps parameter values as a list
+            values = value if isinstance(value, list) else [value]
+            if not any(apply_text_match(subel, v) for v in values):
                 return False
         else:
             raise AssertionError("unknown tag %r in param-filter", subel.tag)
